@@ -11,11 +11,17 @@
       C06_boost / C06_cap       boosted rank <=> utilisation before the instance is negative (all dimensions of the
                                 preceding cumulative demand below the reservation) and within the cap;
                                 unplaced rank <=> utilisation after exceeds cap - 1.
-    Not proved here (stated in DESIGN.md as C06_partial): that the merged queue of a parent allocation keeps each
-    sub-allocation's internal order, and that priority-0 entries come last within one rank; both are covered by the
-    correspondence and the C06 oracle only. *)
+      C06_merge_keeps_order     for EVERY allocation of the tree, at any depth: its own instances appear in the final
+                                queue of the partition in exactly the order of its private queue, i.e. in app-key
+                                order (priority, running before pending, first-come) - the parent merges never reorder
+                                them (Sched/MergeOrderP.v, built by a sub-agent);
+      C06_alloc_order_before    two instances of one allocation: strictly smaller key => earlier in the final queue;
+      C06_zero_last             priority-0 instances come after all others of the same rank, at every depth.
+    Found on the way (mo_ub_none_nonzero_prio): "utilisation-before is infinite iff priority 0" does NOT survive the
+    re-scoring of a parent allocation (a non-zero-priority entry following a priority-0 entry of a lower rank inherits
+    +inf); the order is still right because the comparison falls through to utilisation-after. *)
 From Coq Require Import ZArith QArith List Bool Permutation Sorted.
-From TM Require Import Sched.Vec Sched.Types Sched.Queue Sched.QueueP Gen.Tables.
+From TM Require Import Sched.Vec Sched.Types Sched.Queue Sched.QueueP Sched.MergeOrderP Gen.Tables.
 Import ListNotations.
 Open Scope Z_scope.
 
@@ -66,6 +72,29 @@ Theorem C06_cap : forall rank adj maxu ub ua, 0 <= adj -> rank < UNPLACED_RANK -
   (rank_of rank adj maxu ub ua = UNPLACED_RANK <-> exists m, maxu = Some m /\ util_leb ua (Some (m - 1)%Q) = false).
 Proof. exact rank_of_cap. Qed.
 Print Assumptions C06_cap.
+
+Theorem C06_merge_keeps_order : forall dim free keps apps al sub,
+  NoDup (all_apps al) -> sub_of al sub ->
+  filter (fun n => zmem n (al_apps sub)) (map e_app (util_queue dim free keps apps al))
+  = map a_name (sort_apps (lookup_apps (al_apps sub) apps)).
+Proof. exact merge_keeps_alloc_order. Qed.
+Print Assumptions C06_merge_keeps_order.
+
+Theorem C06_alloc_order_before : forall dim free keps apps al sub x y,
+  NoDup (all_apps al) -> sub_of al sub ->
+  In x (lookup_apps (al_apps sub) apps) -> In y (lookup_apps (al_apps sub) apps) -> ~ key_le y x ->
+  let names := map e_app (util_queue dim free keps apps al) in
+  (exists l1 l2 l3, names = l1 ++ a_name x :: l2 ++ a_name y :: l3) /\
+  (forall l1 l2 l3, names <> l1 ++ a_name y :: l2 ++ a_name x :: l3).
+Proof. exact alloc_order_before. Qed.
+Print Assumptions C06_alloc_order_before.
+
+Theorem C06_zero_last : forall dim free keps apps al, apps_ok dim apps -> alloc_ok al ->
+  let q := util_queue dim free keps apps al in
+  forall e1 e2, In e1 q -> In e2 q -> e_prio e1 = 0 -> e_prio e2 <> 0 -> e_rank e1 = e_rank e2 ->
+    (exists l1 l2 l3, q = l1 ++ e2 :: l2 ++ e1 :: l3) /\ (forall l1 l2 l3, q <> l1 ++ e1 :: l2 ++ e2 :: l3).
+Proof. exact util_queue_zero_last. Qed.
+Print Assumptions C06_zero_last.
 
 (** non-vacuity: a two-level tree; boosted, normal, capped and priority-0 entries all occur *)
 Definition ex_app (n p o : Z) (d : vec) (srv : option Z) : app :=
